@@ -111,12 +111,12 @@ def peval(e: ast.AST, env: dict[str, T.Any]) -> T.Any:
             return fn(a, b)
         except Exception:  # noqa: BLE001
             return UNKNOWN
-    if isinstance(e, ast.Call) and isinstance(e.func, ast.Name) and e.func.id in ("len", "min", "max", "bool", "int", "abs", "list", "tuple", "sorted") and not e.keywords:
+    if isinstance(e, ast.Call) and isinstance(e.func, ast.Name) and e.func.id in ("len", "min", "max", "bool", "int", "abs", "list", "tuple", "sorted", "float") and not e.keywords:
         args = [peval(a, env) for a in e.args]
         if any(a is UNKNOWN or isinstance(a, Sym) for a in args):
             return UNKNOWN
         try:
-            return {"len": len, "min": min, "max": max, "bool": bool, "int": int, "abs": abs, "list": list, "tuple": tuple, "sorted": sorted}[e.func.id](*args)
+            return {"len": len, "min": min, "max": max, "bool": bool, "int": int, "abs": abs, "list": list, "tuple": tuple, "sorted": sorted, "float": float}[e.func.id](*args)
         except Exception:  # noqa: BLE001
             return UNKNOWN
     if isinstance(e, (ast.ListComp, ast.SetComp, ast.GeneratorExp)) and len(e.generators) == 1 and not e.generators[0].is_async:
